@@ -69,13 +69,27 @@ def check(chk: Check) -> None:
                     'builtins below host names, host mapping by identity (R3)', 'FUNCTIONS immutable (R4)',
                     'lambda parameter scopes (R5)', 'cross-call scope capture (R6)']
     F.cls(SD)
-    scopes = scope_list_attr(F)
+    try:
+        scopes = scope_list_attr(F)
+    except AnalysisError:
+        # the stack is not kept as a list attribute (collections.ChainMap, linked frames, ...): the class is then judged
+        # through its own interface - a stack built by ScopedDict(S0), push_scope(S1), push_scope(S2) on three symbolic scopes
+        scopes = None
+        chk.extra['scope_stack_representation'] = 'not a list attribute: judged through the class interface (constructor, push_scope, pop_scope)'
 
     # --------------------------------------------------------------------- R1
     # The lookup methods are evaluated on a stack of three distinct symbolic scopes [S0, S1, S2] (S2 innermost): whatever
     # way the walk is written (reversed(), [::-1], index loops, helpers), the outcomes must be the decision list
     #   key in S2 -> S2[key];  else key in S1 -> S1[key];  else key in S0 -> S0[key];  else LookupError.
     S = [('new', '<scope S%d>' % i, (), 990000 + i) for i in range(3)]      # three distinct objects created before the call
+    if scopes is None:
+        S = [('param', 'S%d' % i) for i in range(3)]
+        sd_mod = F.cls(SD).module
+        sd_name = SD.rsplit('.', 1)[-1]
+
+        def driver(body: str) -> FuncInfo:
+            src_ = 'def __c10_driver__(S0, S1, S2, key, dflt, val):\n    sd = %s(S0)\n    sd.push_scope(S1)\n    sd.push_scope(S2)\n%s' % (sd_name, body)
+            return FuncInfo(sd_mod.name + '.__c10_driver__', sd_mod, ast.parse(src_).body[0])
     for mn in ('__getitem__', 'get', '__contains__'):
         q = SD + '.' + mn
         if q not in F.functions:
@@ -89,7 +103,15 @@ def check(chk: Check) -> None:
         stack = ListVal(list(S), 987654)
         problems = []
         seen = set()
-        for p in SymExec(F, fi, overrides={('attr', selft, scopes): stack}).run():
+        if scopes is None:
+            keyp = ('param', 'key')
+            dflt = ('param', 'dflt') if mn == 'get' and len(fi.node.args.args) > 2 else ('const', None)
+            call_ = {'__getitem__': 'sd.__getitem__(key)', 'get': 'sd.get(key, dflt)' if dflt != ('const', None) else 'sd.get(key)',
+                     '__contains__': 'sd.__contains__(key)'}[mn]
+            lookup_paths = SymExec(F, driver('    return %s\n' % call_)).run()
+        else:
+            lookup_paths = SymExec(F, fi, overrides={('attr', selft, scopes): stack}).run()
+        for p in lookup_paths:
             know = {}
             other = []
             for c, v, _ in p.assumptions:
@@ -154,7 +176,32 @@ def check(chk: Check) -> None:
     stack = ('attr', selft, scopes)
     kp, vp = ('param', fi.node.args.args[1].arg), ('param', fi.node.args.args[2].arg)
     problems = []
-    for p in SymExec(F, fi).run():
+    if scopes is None:
+        # through the interface: a write on the three-scope stack stores into S2 (the innermost) and nowhere else; after
+        # push + pop the stack is what it was (a lookup consults S0, S1 only)
+        for p in SymExec(F, driver('    sd.__setitem__(key, val)\n')).run():
+            st = [e for e in p.events if e.kind in ('store_sub', 'aug_sub') and freeze(e.obj) in S]
+            if p.normal and len(st) != 1:
+                problems.append('%d stores into the scopes on one path' % len(st))
+            for e in st:
+                if freeze(e.obj) != S[2]:
+                    problems.append('`%s` writes into %s, not into the innermost scope' % (e.text(), show(e.obj)))
+                elif freeze(e.index) != ('param', 'key') or freeze(e.value) != ('param', 'val'):
+                    problems.append('`%s` does not store the given value under the given key' % e.text())
+        chk.require(not problems, R1, q, fi.where, '; '.join(sorted(set(problems))) or 'stores into the innermost scope only (interface run)')
+        problems = []
+        n_ok = 0
+        for p in SymExec(F, driver('    sd.pop_scope()\n    return sd.__getitem__(key)\n')).run():
+            tested = [c[3] for c, v, _ in p.assumptions if isinstance(c, tuple) and c[:3] == ('cmp', 'in', ('param', 'key')) and c[3] in S]
+            tested += [o for e in p.events if e.kind == 'exc_edge' for o, ix in e.d.get('subs', ()) if o in S]
+            if S[2] in tested or (p.outcome[0] == 'return' and om.mentions(p.outcome[1], S[2])):
+                problems.append('after pop_scope() the popped scope is still consulted')
+            if p.outcome[0] == 'return' and p.outcome[1] == ('sub', S[1], ('param', 'key')):
+                n_ok += 1
+        chk.require(not problems and n_ok, R1, SD + '.pop_scope', F.func(SD + '.pop_scope').where if (SD + '.pop_scope') in F.functions else fi.where,
+                    '; '.join(sorted(set(problems))) or ('pop_scope removes the innermost scope: afterwards S1 is the first scope consulted'
+                                                         if n_ok else 'after pop_scope() no path finds the key in the scope below'))
+    for p in (SymExec(F, fi).run() if scopes is not None else []):
         st = [e for e in p.events if e.kind in ('store_sub', 'aug_sub')]
         if p.normal and len(st) != 1:
             problems.append('%d stores on one path' % len(st))
@@ -163,10 +210,11 @@ def check(chk: Check) -> None:
                 problems.append('`%s` writes into %s, not into the top scope' % (e.text(), show(e.obj)))
             elif freeze(e.index) != kp or freeze(e.value) != vp:
                 problems.append('`%s` does not store the given value under the given key' % e.text())
-    chk.require(not problems, R1, q, fi.where, '; '.join(sorted(set(problems))) or 'stores into %s[-1] only' % scopes)
+    if scopes is not None:
+        chk.require(not problems, R1, q, fi.where, '; '.join(sorted(set(problems))) or 'stores into %s[-1] only' % scopes)
     # no other method writes a non-top scope
     for mn, mnode in F.cls(SD).methods.items():
-        if mn in ('__setitem__', '__init__', '__post_init__'):
+        if mn in ('__setitem__', '__init__', '__post_init__') or scopes is None:
             continue
         fq = SD + '.' + mn
         selft2 = ('param', om.self_param(F, fq)) if mnode.args.args else None
@@ -230,9 +278,11 @@ def _is_push(e: Event, scopes: str) -> Optional[Any]:
     """The stack object a call pushes onto, if it is a push."""
     if e.kind != 'call':
         return None
-    if e.resolved == SD + '.push_scope' and not e.d.get('inlined'):
+    if e.resolved == SD + '.push_scope' and (not e.d.get('inlined') or scopes is None):
         f = freeze(e.func)
         return f[1] if f[0] == 'attr' else None
+    if scopes is None:
+        return None
     f = freeze(e.func)
     if e.resolved is None and isinstance(f, tuple) and f and f[0] == 'attr' and f[2] == 'push_scope':
         return f[1]         # receiver of unknown static type: the method name is unique to the scope stack
@@ -244,9 +294,11 @@ def _is_push(e: Event, scopes: str) -> Optional[Any]:
 def _is_pop(e: Event, scopes: str) -> Optional[Any]:
     if e.kind != 'call':
         return None
-    if e.resolved == SD + '.pop_scope' and not e.d.get('inlined'):
+    if e.resolved == SD + '.pop_scope' and (not e.d.get('inlined') or scopes is None):
         f = freeze(e.func)
         return f[1] if f[0] == 'attr' else None
+    if scopes is None:
+        return None
     f = freeze(e.func)
     if e.resolved is None and isinstance(f, tuple) and f and f[0] == 'attr' and f[2] == 'pop_scope':
         return f[1]
@@ -264,7 +316,7 @@ def _r2(chk: Check, R2: str, scopes: str) -> None:
         if '.ply' in fi.module.name or q in (SD + '.push_scope', SD + '.pop_scope', SD + '.__init__', SD + '.__post_init__'):
             continue
         src = ast.dump(fi.node)
-        if 'push_scope' not in src and scopes not in src and 'pop_scope' not in src and q != SD + '.make_scope':
+        if 'push_scope' not in src and (scopes is None or scopes not in src) and 'pop_scope' not in src and q != SD + '.make_scope':
             continue
         units.append((q, fi, SymExec(F, fi).run()))
         for c in om.all_closures(units[-1][2]):
@@ -297,7 +349,10 @@ def _r2(chk: Check, R2: str, scopes: str) -> None:
             cm_push_classes.add(cq)
         if counts == {0} and not other:
             continue
-        good = counts == {1} and not other and all(p.normal for p in paths)
+        # a path that does not return normally is acceptable only if the push / pop itself was reached (it is the stack
+        # operation that failed, e.g. pop on an empty stack), never one that left before
+        attempted = all(p.normal or any((_is_push if role == 'enter' else _is_pop)(e, scopes) is not None for e in p.events) for p in paths)
+        good = counts == {1} and not other and attempted
         chk.require(good, R2, q, fi.where, ('__enter__ pushes exactly one scope on every path' if role == 'enter' else
                                              '__exit__ pops exactly one scope on every path, unconditionally') if good else
                     '%s of a context manager %s (per path: %s)%s' % (
@@ -445,7 +500,11 @@ def _r3(chk: Check, R3: str) -> None:
         elif k is None:
             problems_ctor.append('the bottom scope is %s, not a copy of FUNCTIONS' % show(a0))
         sd = freeze(c.result)
-        mine = [e for e in pushes if freeze(e.func)[1] == sd]
+
+        def same_object(t):
+            # by construction id: what the object holds changes as scopes are pushed
+            return t == sd or (isinstance(t, tuple) and isinstance(sd, tuple) and t[:2] == sd[:2] == ('new', SD) and len(t) > 3 and len(sd) > 3 and t[3] == sd[3])
+        mine = [e for e in pushes if same_object(freeze(e.func)[1])]
         if len(mine) != 1:
             problems_push.append('%d scopes are pushed above the builtins (expected exactly the host mapping)' % len(mine))
             continue
@@ -465,7 +524,9 @@ def _r3(chk: Check, R3: str) -> None:
         for e in p.events:
             if e.kind == 'call' and e.d.get('ctor') and e.resolved == 'smartquery.vm_state.VMState':
                 nm = dict(freeze(e.result)[2]).get('names')
-                if nm != sd:
+                same_obj = isinstance(nm, tuple) and isinstance(sd, tuple) and nm[:2] == sd[:2] == ('new', SD) and len(nm) > 3 and len(sd) > 3 \
+                    and nm[3] == sd[3]                  # the object built above (by construction id), whatever it holds by now
+                if nm != sd and not same_obj:
                     problems_push.append('the VM state is given %s as names, not the stack built here' % show(nm))
     chk.require(not problems_ctor and n_ctor, R3, q + ' :: ScopedDict(...)', fi.where,
                 '; '.join(sorted(set(problems_ctor))) or 'bottom scope = fresh copy of FUNCTIONS')
@@ -561,7 +622,10 @@ def _r5(chk: Check, R5: str) -> None:
                             ok = True
                 if not ok:
                     # explicit push ... try/finally pop (pairing itself is R2's business)
-                    scopes_attr = scope_list_attr(F)
+                    try:
+                        scopes_attr = scope_list_attr(F)
+                    except AnalysisError:
+                        scopes_attr = None
                     before = cp.events[:cp.events.index(b)]
                     for x in before:
                         if x.kind == 'call' and (x.resolved == SD + '.push_scope' or (x.resolved is None and _is_push(x, scopes_attr) is not None)) \
